@@ -160,6 +160,7 @@ type Exec struct {
 	tailrec     map[string]bool
 	nAtomic     int
 	sharedVals  []*Term
+	jsonMarshals []jsonRec
 	valueSort   *Sort
 	recFuel     map[*ssa.Function]int
 	maxFuel     int
@@ -1068,6 +1069,29 @@ func (x *Exec) runFrom(fr *Frame, st *State, b *ssa.BasicBlock, i int) []Outcome
 			case *ssa.MakeInterface:
 				fr.env[ins] = c.Box(ins.X.Type(), x.val(fr, ins.X))
 			case *ssa.Convert:
+				if sl, ok := ins.Type().Underlying().(*types.Slice); ok && x.val(fr, ins.X).Sort == c.Str {
+					// []byte(s): a fresh array holding the bytes of s
+					sv := x.val(fr, ins.X)
+					es := c.SortOf(sl.Elem())
+					if es.Kind == KBV && es.Width == 8 {
+						var arr *Term
+						var ln *Term
+						if sv.Op == "str" {
+							arr = c.ConstArr(c.ArraySort(c.Int, es), c.BVLit(0, 8))
+							for k := 0; k < len(sv.Name); k++ {
+								arr = c.Store(arr, c.IntLit(int64(k)), c.BVLit(uint64(sv.Name[k]), 8))
+							}
+							ln = c.IntLit(int64(len(sv.Name)))
+						} else {
+							arr = c.App("str_bytes", c.ArraySort(c.Int, es), sv)
+							ln = c.App("str_len", c.Int, sv)
+							x.assumeFact(st, c.Cmp("<=", c.IntLit(0), ln))
+						}
+						cell := x.newCell(st, arr, types.NewArray(sl.Elem(), 0))
+						fr.env[ins] = c.Ctor(c.Slice, cell, c.IntLit(0), ln, ln)
+						continue
+					}
+				}
 				v, err := x.convert(x.val(fr, ins.X), ins.X.Type(), ins.Type())
 				if err != nil {
 					return abortOut(st, "%v in %s", err, fr.fn)
